@@ -57,13 +57,6 @@ func exact(b []byte) []byte {
 	return c
 }
 
-func atoiU(s string, bits int) uint64 {
-	v, err := strconv.ParseUint(s, 10, bits)
-	if err != nil {
-		panic("harness: bad integer token " + s)
-	}
-	return v
-}
 
 // ---- header tokens -------------------------------------------------------------------------
 
